@@ -10,8 +10,9 @@ from vf.rs import Crate, AnchorLost
 from vf.weave import Fn, C, Loop, Insert, entry, before, after, lit
 from vf import dialect
 
+from vf.common import rand_core_impls_text, SHIMS, PREAMBLE
+
 HERE = os.path.dirname(__file__)
-SHIMS = os.path.join(HERE, '..', 'shims')
 
 # generator -> description
 GENS = {
@@ -32,56 +33,6 @@ GENS = {
     'Xoshiro512StarStar':  dict(mod='xoshiro512starstar', eng='xosh512', w=64, nw=8, seed=64, half='upper', jump=True, seed512=True),
 }
 
-PREAMBLE = '''use vstd::prelude::*;
-use crate::shims::*;
-use crate::rand_core::*;
-use crate::rand_core::le::*;
-use crate::spec::*;
-'''
-
-
-def rand_core_impls_text(unit):
-    """rand_core's real `next_u64_via_u32` / `fill_bytes_via_next` from the registry copy named by Cargo.lock,
-    woven with the generic contracts (verified once, for all generators and all n)."""
-    lock = open(os.path.join(REPO, 'Cargo.lock')).read()
-    m = re.search(r'name = "rand_core"\nversion = "([^"]+)"', lock)
-    if not m:
-        raise AnchorLost('rand_core not in Cargo.lock')
-    ver = m.group(1)
-    cands = glob.glob(os.path.expanduser('~/.cargo/registry/src/*/rand_core-%s/src/impls.rs' % ver))
-    if not cands:
-        raise AnchorLost('rand_core %s sources not found in the local registry' % ver)
-    cr = Crate(open(cands[0]).read())
-    unit.sources['rand_core-' + ver] = cands[0]
-    out = []
-    f1 = Fn('rand_core::impls::next_u64_via_u32', ret='res',
-            sig_rewrites=[(r'<R: RngCore \+ \?Sized>', '<R: Next32>')],
-            ensures=[C('rc.next_u64_via_u32.value', 'C05', 'res == via_u32::<R>(old(rng).v()).0'),
-                     C('rc.next_u64_via_u32.state', 'C05', 'final(rng).v() == via_u32::<R>(old(rng).v()).1')],
-            builtin_props='C14')
-    f2 = Fn('rand_core::impls::fill_bytes_via_next',
-            sig_rewrites=[(r'<R: RngCore \+ \?Sized>', '<R: Next32 + Next64>')],
-            ensures=[C('rc.fill_bytes_via_next.bytes', 'C05', 'final(dest)@ == fill_via_next::<R>(old(rng).v(), old(dest)@.len()).0'),
-                     C('rc.fill_bytes_via_next.state', 'C05', 'final(rng).v() == fill_via_next::<R>(old(rng).v(), old(dest)@.len()).1')],
-            loops={0: Loop(invariants=[
-                C('rc.fill_bytes_via_next.inv.split', 'C05 C14', 'final(dest)@ == pre + final(left)@'),
-                C('rc.fill_bytes_via_next.inv.len', 'C05 C14', 'pre.len() + left@.len() == n0'),
-                C('rc.fill_bytes_via_next.inv.bytes', 'C05', 'fill_via_next::<R>(r0, n0).0 == pre + fill_via_next::<R>(rng.v(), left@.len()).0'),
-                C('rc.fill_bytes_via_next.inv.state', 'C05', 'fill_via_next::<R>(r0, n0).1 == fill_via_next::<R>(rng.v(), left@.len()).1'),
-            ], decreases='left.len()')},
-            inserts=[after(lit('let mut left = dest;'),
-                           'let ghost r0 = rng.v(); let ghost n0 = old(dest)@.len(); let ghost mut pre: Seq<u8> = Seq::empty();'),
-                     after(lit('l.copy_from_slice(&chunk);'), 'proof { pre = pre + chunk@; }')],
-            builtin_props='C14')
-    for name, fc in (('next_u64_via_u32', f1), ('fill_bytes_via_next', f2)):
-        it = cr.get(name)
-        s = dialect.apply(cr.src(it, with_attrs=True), unit.log).strip()
-        from vf.weave import weave_fn
-        fc.path = 'rand_core::impls::' + name
-        unit.extracted[fc.path] = s
-        unit.contracts[fc.path] = fc
-        out.append(weave_fn(s, fc))
-    return '\n'.join(out)
 
 
 def jref_text():
@@ -132,8 +83,7 @@ impl RngView for {name} {{
 impl FillView for {name} {{
     open spec fn sfill(v: {V}, n: nat) -> (Seq<u8>, {V}) {{ fill_via_next::<Self>(v, n) }}
 }}
-impl SeedableRng for {name} {{
-    open spec fn seed_bytes(s: {seedty}) -> Seq<u8> {{ {seedbytes} }}
+impl SeedView for {name} {{
     open spec fn seed_len() -> nat {{ {n} }}
     // C08: the all-zero seed is replaced by the SplitMix64 expansion of 0; every other seed is used verbatim (LE words)
     open spec fn from_seed_v(b: Seq<u8>) -> {V} {{
@@ -141,6 +91,10 @@ impl SeedableRng for {name} {{
     }}
     // C09: seed_from_u64(x) == from_seed(first seed-length bytes of the SplitMix64 stream started at x)
     open spec fn seed_from_u64_v(x: u64) -> {V} {{ Self::from_seed_v(fill_via_next::<crate::splitmix64::SplitMix64>(x, {n}).0) }}
+}}
+impl FromRngDefault for {name} {{}}
+impl SeedableRng for {name} {{
+    open spec fn seed_bytes(s: {seedty}) -> Seq<u8> {{ {seedbytes} }}
 '''.format(name=name, V=V, view=view_expr(g), s32=s32,
            s64v=(s64 if g['w'] == 64 else '{ let (x, v1) = (%s_out(v), %s_next(v)); let (y, v2) = (%s_out(v1), %s_next(v1)); ((((y as u64) << 32u64) | (x as u64)), v2) }' % (low, eng, low, eng)),
            seedty=seedty, seedbytes=seedbytes, n=n, words=words)
@@ -197,6 +151,11 @@ impl RngView for SplitMix64 {
 }
 impl FillView for SplitMix64 {
     open spec fn sfill(v: u64, n: nat) -> (Seq<u8>, u64) { fill_via_next::<Self>(v, n) }
+}
+impl SeedView for SplitMix64 {
+    open spec fn seed_len() -> nat { 8 }
+    open spec fn from_seed_v(b: Seq<u8>) -> u64 { from_le64(b) }
+    open spec fn seed_from_u64_v(x: u64) -> u64 { x }
 }''')
     rp = mod + '::RngCore@SplitMix64'
     u.impl(cr, rp, header='impl Next32 for SplitMix64', fns=['next_u32'], contracts={
@@ -212,16 +171,13 @@ impl FillView for SplitMix64 {
     sp = mod + '::SeedableRng@SplitMix64'
     u.impl(cr, sp, header='impl SeedableRng for SplitMix64', keep=['type Seed'], extra='''
     open spec fn seed_bytes(s: [u8; 8]) -> Seq<u8> { s@ }
-    open spec fn seed_len() -> nat { 8 }
-    open spec fn from_seed_v(b: Seq<u8>) -> u64 { vstd::bytes::spec_u64_from_le_bytes(b) }
-    open spec fn seed_from_u64_v(x: u64) -> u64 { x }
 ''', fns=['from_seed', 'seed_from_u64'], contracts={
         'from_seed': Fn(None, ret='r', builtin_props='C14', trait_props='C01 C09',
-                        ensures=[C('splitmix64.from_seed.le', 'C01 C09', 'r.x == vstd::bytes::spec_u64_from_le_bytes(seed@)')],
+                        ensures=[C('splitmix64.from_seed.le', 'C01 C09', 'r.x == from_le64(seed@)')],
                         inserts=[after(lit('read_u64_into(&seed, &mut state);'), 'proof { assert(seed@.subrange(0, 8) =~= seed@); }')]),
         'seed_from_u64': Fn(None, ret='r', builtin_props='C14', trait_props='C01 C09',
                             ensures=[C('splitmix64.seed_from_u64.id', 'C01 C09', 'r.x == seed')],
-                            inserts=[entry('proof { vstd::bytes::lemma_auto_spec_u64_to_from_le_bytes(); }')]),
+                            inserts=[entry('proof { lemma_le64_roundtrip(seed); }')]),
     })
     derived(u, cr, mod, name, g, 'self.x == other.x', 'r.x == self.x')
 
@@ -299,6 +255,9 @@ def build_gen(u, cr, name, g):
     sp = mod + '::SeedableRng@' + name
     u.impl(cr, sp, header='impl SeedableRng for ' + name, keep=['type Seed'], extra=gen_spec_impls_seed(name, g),
            fns=['from_seed', 'seed_from_u64'], contracts={'from_seed': from_seed, 'seed_from_u64': seed_from_u64})
+    for f in ('from_rng', 'try_from_rng'):
+        if sp + '::' + f in cr.index:
+            raise AnchorLost('%s overrides %s: the assumed default contract (T5) does not apply' % (name, f))
 
     # ---- jump / long_jump --------------------------------------------------------------------------
     if g.get('jump'):
